@@ -74,7 +74,7 @@ fn vie_i64_seq_seeds<const S: u8>(_t: Tier) -> Vec<Seed> {
 }
 
 macro_rules! vie {
-    ($v:ident, $s:literal, $name:literal, $small:expr) => {
+    ($v:ident, $s:literal, $name:literal, $small:expr, $small_seq:expr) => {
         $v.push(P { name: concat!("VarIntEncoder[", $name, "]::decode_u64"), seeds: vie_u64_seeds::<$s>, parse: |b, _| enc($s).decode_u64(b).is_ok(), len_arg: false, small: $small });
         $v.push(P { name: concat!("VarIntEncoder[", $name, "]::decode_i64"), seeds: vie_i64_seeds::<$s>, parse: |b, _| enc($s).decode_i64(b).is_ok(), len_arg: false, small: $small });
         $v.push(P {
@@ -82,14 +82,14 @@ macro_rules! vie {
             seeds: vie_u64_seq_seeds::<$s>,
             parse: |b, _| enc($s).decode_u64_sequence(b).is_ok(),
             len_arg: false,
-            small: $small,
+            small: $small_seq,
         });
         $v.push(P {
             name: concat!("VarIntEncoder[", $name, "]::decode_i64_sequence"),
             seeds: vie_i64_seq_seeds::<$s>,
             parse: |b, _| enc($s).decode_i64_sequence(b).is_ok(),
             len_arg: false,
-            small: $small,
+            small: $small_seq,
         });
     };
 }
@@ -366,14 +366,15 @@ pub fn all(tier: Tier) -> Vec<P> {
             small: true,
         },
     ];
-    vie!(v, 0, "Leb128", true);
-    vie!(v, 1, "Zigzag", true);
-    vie!(v, 2, "Delta", true);
-    vie!(v, 3, "GroupVarint", true);
-    vie!(v, 4, "PrefixFree", true);
+    vie!(v, 0, "Leb128", true, true);
+    // (Zigzag::decode_u64*, Delta::decode_u64/i64 are unconditional `Err`: no encoder output exists, the short strings are their whole corpus)
+    vie!(v, 1, "Zigzag", true, true);
+    vie!(v, 2, "Delta", true, true);
+    vie!(v, 3, "GroupVarint", true, true);
+    vie!(v, 4, "PrefixFree", true, true);
     // Compact and Simd delegate to the Leb128 / Zigzag functions
-    vie!(v, 5, "Compact", th);
-    vie!(v, 6, "Simd", th);
+    vie!(v, 5, "Compact", th, th);
+    vie!(v, 6, "Simd", th, th);
 
     v.push(P { name: "SimdVarintCodec::decode_single", seeds: simd_single_seeds, parse: |b, _| SimdVarintCodec::new().decode_single(b).is_ok(), len_arg: false, small: true });
     v.push(P { name: "SimdVarintCodec::decode_batch", seeds: simd_batch_seeds, parse: |b, n| SimdVarintCodec::new().decode_batch(b, n).is_ok(), len_arg: true, small: th });
